@@ -15,5 +15,6 @@ CHECK = {
  'assumptions': COMMON_ASSUME + ['bound 50*window+50 polls stands for "tens of polls proportional to the window, not thousands"'],
  'level_text': 'bounded-response (liveness) property decided on every tuple of a finite parameter grid by running the real closed loop to completion in a deterministic simulation',
  'level_note': 'direct algorithm only (request must stay unchanged while stalled); cmd fans share the integer-average code path of file fans',
- 'runs': [{'pkg': 'internal/controller', 'test': 'TestVX_C10', 'shards_quick': 16, 'shards_thorough': 16}],
+ 'runs': [{'pkg': 'internal/controller', 'test': 'TestVX_C10', 'shards_quick': 16, 'shards_thorough': 16},
+          {'pkg': 'internal/controller', 'test': 'TestVX_C10stop', 'shards_quick': 12, 'shards_thorough': 12}],
 }
